@@ -190,22 +190,35 @@ def rule_desugar(ctx):
     fn = find_fn(SSR, "remove_syntactic_sugar")
     if fn is None:
         return ctx.missing(R, "remove_syntactic_sugar")
-    conts = [n for n in walk(fn["body"]) if n["k"] == "Continue"]
-    ctx.floor(R, "drop sites", len(conts), 4)
-    for c in conts:
-        conds = conditions_to(fn["body"], c) or []
-        cs = facts_str(conds)
-        okk = False
-        why = ""
-        if must_call_before(fn, c, {"push"}):
-            okk, why = True, "reports.push precedes the drop"
-        else:
-            for f in conds:
-                t = fact_str(f).replace(" ", "")
-                if re.fullmatch(r"body\.contains_(tuple|anonymous_component)\(Some\(reports\)\)", t):
-                    okk, why = True, "drop guarded by %s (reports through the callback)" % t
-        key = "remove_syntactic_sugar/drop[%s]" % ";".join(x.replace(" ", "")[:60] for x in cs if "loop" not in x and not x.startswith("for"))
-        ctx.check(R, key, okk, why or "definition dropped without a report; path: %s" % cs, site(SSR, c))
+    # every way through a definition loop that does not insert the definition into the new table must have reported
+    loops = [n for n in walk(fn["body"]) if n["k"] == "For" and any(True for _ in method_calls(n["body"], "insert"))]
+    ctx.floor(R, "definition loops", len(loops), 2)
+    ndrop = 0
+
+    def is_callback(e):
+        e = strip(e)
+        return e["k"] == "MethodCall" and e["method"] in ("contains_tuple", "contains_anonymous_component") and len(e["args"]) == 1 and render(strip(e["args"][0])).replace(" ", "").startswith("Some(")
+
+    for li, lp in enumerate(loops):
+        for conds, atoms, ex in enumerate_paths(lp["body"]):
+            effs = [x["method"] for a_ in atoms for x in walk(a_) if x["k"] == "MethodCall" and x["method"] in ("insert", "push")]
+            if "insert" in effs or ex == "panic":
+                continue  # kept, or not a silent drop (panics are C01's subject)
+            ndrop += 1
+            okk, why = False, ""
+            if "push" in effs:
+                okk, why = True, "a report is pushed on this path"
+            else:
+                for f in conds:
+                    if f[0] == "if" and f[2] and is_callback(f[1]):
+                        okk, why = True, "drop guarded by %s (reports through the callback)" % fact_str(f)
+                    # `a || b` taken: !( !a && !b ) - every disjunct must be a reporting callback
+                    if f[0] == "notall" and f[1] and all(g[0] == "if" and not g[2] and is_callback(g[1]) for g in f[1]):
+                        okk, why = True, "drop guarded by a disjunction of reporting callbacks"
+            cs = [x.replace(" ", "")[:60] for x in facts_str(conds)]
+            key = "remove_syntactic_sugar/loop%d/drop[%s]" % (li + 1, ";".join(cs))
+            ctx.check(R, key, okk, why or "definition dropped without a report; path: %s" % cs, site(SSR, lp))
+    ctx.floor(R, "drop paths", ndrop, 3)
     # the callbacks do push
     tr = "parser/src/syntax_sugar_traits.rs"
     n = 0
